@@ -163,17 +163,31 @@ type bufConn struct {
 func (c *bufConn) Read(p []byte) (int, error) { return c.r.Read(p) }
 
 func c16Dial(cfg c16Cfg, faultAt int, fk xport.FaultKind, stopAt int, negative string, shortTO bool) *c16Run {
+	return c16DialC(cfg, faultAt, fk, stopAt, negative, shortTO, -1)
+}
+
+// c16DialC: cancelAt >= 0 cancels the caller's context when transport operation cancelAt is about
+// to run, -2 inside the dial hook just before it returns the connection, -1 never.
+func c16DialC(cfg c16Cfg, faultAt int, fk xport.FaultKind, stopAt int, negative string, shortTO bool, cancelAt int) *c16Run {
 	run := &c16Run{}
 	a, b := xport.NewPipe()
 	run.nc, run.peer = a, b
 	if faultAt >= 0 {
 		a.FaultAt = map[int]xport.FaultKind{faultAt: fk}
 	}
+	a.ClearDawdle = c16SlowClear
+	a.LenientDeadlines = c16SlowClear > 0
 	c16Peer(b, cfg.Proxy, cfg.TLS, stopAt, negative)
 	d := &ws.Dialer{ReadBufferSize: cfg.RB}
+	cancelAll := func() {}
+	inHook := func() {
+		if cancelAt == -2 {
+			cancelAll()
+		}
+	}
 	switch cfg.Hook {
 	case 1:
-		d.NetDial = func(network, addr string) (net.Conn, error) { return a, nil }
+		d.NetDial = func(network, addr string) (net.Conn, error) { inHook(); return a, nil }
 	case 2:
 		d.NetDialTLSContext = func(ctx context.Context, network, addr string) (net.Conn, error) {
 			tc := tls.Client(a, &tls.Config{RootCAs: getPKI().pool, ServerName: c16Host})
@@ -182,10 +196,11 @@ func c16Dial(cfg c16Cfg, faultAt int, fk xport.FaultKind, stopAt int, negative s
 				return nil, err
 			}
 			run.hookOps = len(a.Ops())
+			inHook()
 			return tc, nil
 		}
 	default:
-		d.NetDialContext = func(ctx context.Context, network, addr string) (net.Conn, error) { return a, nil }
+		d.NetDialContext = func(ctx context.Context, network, addr string) (net.Conn, error) { inHook(); return a, nil }
 	}
 	if cfg.Proxy {
 		pu, _ := url.Parse("http://proxy.example:3128")
@@ -214,6 +229,17 @@ func c16Dial(cfg c16Cfg, faultAt int, fk xport.FaultKind, stopAt int, negative s
 		ctx, cancel = context.WithDeadline(ctx, run.deadline)
 		defer cancel()
 	}
+	if cancelAt != -1 {
+		var cancel func()
+		ctx, cancel = context.WithCancel(ctx)
+		defer cancel()
+		cancelAll = cancel
+		a.OnCounted = func(i int) {
+			if i == cancelAt {
+				cancel()
+			}
+		}
+	}
 	scheme := "ws"
 	if cfg.TLS {
 		scheme = "wss"
@@ -236,6 +262,9 @@ func c16Dial(cfg c16Cfg, faultAt int, fk xport.FaultKind, stopAt int, negative s
 	}
 	return run
 }
+
+// c16SlowClear, when non-zero, makes the next c16Dial's transport take that long to clear a deadline.
+var c16SlowClear time.Duration
 
 var errStillBlocked = fmt.Errorf("verif: Dial still blocked after 30 s")
 
@@ -397,6 +426,25 @@ func runC16(ctx *core.Ctx, out *core.Out) {
 		}
 	}
 
+	// ---- the caller gives up: its context is cancelled at every point of the handshake
+	// (inside the dial hook, then before each transport operation). Whether Dial still
+	// succeeds is its own business; a failure must leave the connection closed.
+	if cfg.Side == "dial" {
+		for k := -2; k < len(ops); k++ {
+			if k == -1 {
+				continue
+			}
+			run := c16DialC(cfg, -1, 0, 0, "", false, k)
+			out.Eval(fmt.Sprintf("%s|cancel|%d|%d", core.J(cfg), k, round), true)
+			out.Count("context_cancellations", 1)
+			ok := judge(run, fmt.Sprintf("context cancelled at transport operation %d", k), map[string]interface{}{"context_cancelled_at_op": k})
+			cleanup(run)
+			if !ok {
+				return
+			}
+		}
+	}
+
 	// ---- negative replies and blocking peers (dial only)
 	if cfg.Side != "dial" {
 		out.Count("blocking_scenarios", 0)
@@ -438,6 +486,21 @@ func runC16(ctx *core.Ctx, out *core.Out) {
 			return
 		}
 		ok := judge(run, "negative reply "+neg, map[string]interface{}{"negative": neg})
+		cleanup(run)
+		if !ok {
+			return
+		}
+	}
+	if cfg.Timeout != 0 {
+		// the very last operation of a successful handshake (clearing the deadline) is slow and
+		// ends after the configured limit: Dial may fail or succeed, but success means an open
+		// connection
+		c16SlowClear = 90 * time.Millisecond
+		run := c16Dial(cfg, -1, 0, 0, "", true)
+		c16SlowClear = 0
+		out.Eval(fmt.Sprintf("%s|slowclear|%d", core.J(cfg), round), true)
+		out.Count("handshakes_finishing_just_after_the_limit", 1)
+		ok := judge(run, "deadline clearing finishes after the 50 ms limit", nil)
 		cleanup(run)
 		if !ok {
 			return
